@@ -48,6 +48,7 @@ Section Run.
   Variable parseable : vstr -> bool.
   Variable cfg : config.
   Variable consult_tc : Z -> vstr -> bool -> bool.
+  Variable robots : vstr -> robots_result.
   Variable script : list script_page.
   Variable u : vstr.
 
@@ -57,13 +58,25 @@ Section Run.
     | 0 => ([], i)
     | S n' =>
         if checked_out i then
-          let '(i1, ev) := visit_item urljoin parseable cfg consult_tc u ((fun _ => RAllow), server_of script c) i in
+          let '(i1, ev) := visit_item urljoin parseable cfg consult_tc u (robots, server_of script c) i in
           let c1 := fold_left bump (requested ev) c in
           let '(evs, i2) := run_visits n' c1 i1 in
           (ev :: evs, i2)
         else ([], i)
     end.
 End Run.
+
+(* robots.txt verdicts of a scripted site: URL prefixes of origins whose robots.txt answers 5xx
+   (the fetch fails: ServerError), and URL prefixes that the rules of their origin disallow *)
+Fixpoint vprefix (p u : vstr) : bool :=
+  match p, u with
+  | [], _ => true
+  | x :: p', y :: u' => N.eqb x y && vprefix p' u'
+  | _ :: _, [] => false
+  end.
+Definition tab_robots (fails denies : list vstr) : vstr -> robots_result :=
+  fun u => if existsb (fun p => vprefix p u) fails then RFail
+           else if existsb (fun p => vprefix p u) denies then RDeny else RAllow.
 
 Definition istatus_code (s : istatus) : nat :=
   match s with ITodo => 0 | IError => 1 | IDone => 2 | ISkipped => 3 end.
